@@ -166,6 +166,11 @@ func genC16(t *Tape, tier string) *Scenario {
 	cl.Ops = append(cl.Ops, ClientOp{Kind: opNoop}, ClientOp{Kind: opQuit})
 	cs := ConnScript{Lat: drawLat(t), LatBack: drawLat(t), SrvCaps: drawCaps(t), Client: cl}
 	cs.defaults()
+	if t.Bool() {
+		// the network re-cuts the server's replies: the client's reply parser meets
+		// replies that arrive in pieces, also in the middle of a line or a CRLF
+		cs.SrvFaults.WriteSplit = []int{1 + t.Intn(20), 1 + t.Intn(5)}
+	}
 	if !x.Slow && t.Chance(1, 8) {
 		// fault stratum: the exchange is broken off somewhere; the client may report
 		// anything but a success the backend did not grant
